@@ -199,9 +199,24 @@ package router
 //@   ensures [C19:released] !has(c.queue, key)
 //@   ensures [C19:others-kept] forallkey(k, c.queue, k != key ==> has(c.queue, k) == old(has(c.queue, k)))
 
+// keyForPrefetch: the single-flight key is made of exactly the four components of a cache key - the question's
+// name, class and type and the group of THIS client - and of nothing else.
 //@ func (c *cacheCtl) keyForPrefetch(q *dnsmsg.Question, remoteAddr netip.Addr) (h uint64)
-//@   trusted
+//@   props C19 C07
+//@   requires c != nil && q != nil && (c.ipMarker == nil || markerOK(c.ipMarker)) && (c.redis == nil || redisOK(c.redis))
+//@   ghost gMark string = ""
+//@   ghost gHN uint64 = 0
+//@   ghost gHM uint64 = 0
+//@   ghost nM int = 0
+//@   aftercall ipMark: gMark = ret0
+//@   aftercall Bytes: gHN = ret0
+//@   oncall String?: nM = nM + 1
+//@   aftercall String?: gHM = ret0
 //@   modifies nothing
+//@   ensures [C19:key-of-question-and-client-group] h == ((gHN + (uint64(q.Class) << 16) + uint64(q.Type)) ^ (nM == 1 ? gHM : 0)) && nM == (len(gMark) > 0 ? 1 : 0)
+//@   callsite ipMark: [C19:group-of-this-client] arg0 == c && arg1 == remoteAddr
+//@   callsite Bytes: [C19:name-of-this-question] sameSlice(arg1, q.Name, 0, len(q.Name))
+//@   callsite String?: [C19:that-group] arg1 == gMark
 
 // A refresh goroutine is started only after reserve() returned true (so at most one per key is in
 // flight), with a private copy of the question; nothing on this path blocks or contacts the upstream.
